@@ -19,12 +19,15 @@ pub enum COp { Poll { fresh: bool }, Set(u64), Get, Drop, Up,
                /// free-running rounds only (no ledger): `Subscriber::next_now`, `SharedObservable::set_if_not_eq`
                NextNow, Sne(u64), Shne(u64),
                /// `next_ref()` awaited again and again until the value `until` has been seen / `set(1..=n)` in order
-               NextRefs { until: u64 }, SetSeq(u64) }
+               NextRefs { until: u64 }, SetSeq(u64),
+               /// hold the write guard for a moment without writing / `subscribe()` and poll the new subscriber once
+               HoldWrite, SubPoll }
 impl COp {
     fn text(&self) -> String {
         match self { COp::Poll { fresh: false } => "poll".into(), COp::Poll { fresh: true } => "pollf".into(), COp::Set(v) => format!("set:{v}"),
             COp::Get => "get".into(), COp::Drop => "drop".into(), COp::Up => "up".into(), COp::NextNow => "nextnow".into(), COp::Sne(v) => format!("sne:{v}"), COp::Shne(v) => format!("shne:{v}"),
-            COp::NextRefs { until } => format!("nextrefs:{until}"), COp::SetSeq(n) => format!("setseq:{n}") }
+            COp::NextRefs { until } => format!("nextrefs:{until}"), COp::SetSeq(n) => format!("setseq:{n}"),
+            COp::HoldWrite => "holdwrite".into(), COp::SubPoll => "subpoll".into() }
     }
 }
 
@@ -116,6 +119,20 @@ fn worker(sh: Arc<Shared>, t: usize, op: COp, mut h: Handle, forced: bool, round
             (COp::Sne(v), Handle::Clone(o)) => fmt_opt(o.set_if_not_eq(*v)),
             (COp::Shne(v), Handle::Clone(o)) => fmt_opt(o.set_if_hash_not_eq(*v)),
             (COp::SetSeq(n), Handle::Clone(o)) => { for i in 1..=*n { o.set(i); } "-".into() }
+            (COp::HoldWrite, Handle::Clone(o)) => {
+                { let g = o.write(); for _ in 0..2000 { std::hint::spin_loop(); } drop(g); }
+                o.update_if(|_| { for _ in 0..2000 { std::hint::spin_loop(); } false });
+                "-".into()
+            }
+            (COp::SubPoll, Handle::Clone(o)) => {
+                let mut out = vec![];
+                for _ in 0..3 {
+                    let mut s = o.subscribe();
+                    let (_f, w) = flag_waker();
+                    out.push(poll_once(&mut s, &w));
+                }
+                out.join(",")
+            }
             (COp::NextRefs { until }, Handle::Sub(s, _, w)) => {
                 // every value handed out under a guard, in order; gives up after a generous number of polls
                 let mut seen: Vec<u64> = vec![];
@@ -161,7 +178,7 @@ fn setup(p: &Program) -> Setup {
         handles.push(match op {
             COp::Poll { fresh } => { let (f, w) = flag_waker(); n_subs += 1; Handle::Sub(if *fresh { root.subscribe_reset() } else { root.subscribe() }, f, w) }
             COp::NextNow | COp::NextRefs { .. } => { let (f, w) = flag_waker(); n_subs += 1; Handle::Sub(root.subscribe(), f, w) }
-            COp::Set(_) | COp::Get | COp::Drop | COp::Sne(_) | COp::Shne(_) | COp::SetSeq(_) => { n_clones += 1; Handle::Clone(root.clone()) }
+            COp::Set(_) | COp::Get | COp::Drop | COp::Sne(_) | COp::Shne(_) | COp::SetSeq(_) | COp::HoldWrite | COp::SubPoll => { n_clones += 1; Handle::Clone(root.clone()) }
             COp::Up => Handle::Weak(root.downgrade()),
         });
     }
@@ -283,6 +300,14 @@ fn finish(sink: &mut Sink, p: &Program, joined: Vec<(Handle, Vec<String>, Option
                 if seen.last() != Some(until) { sink.oracle_fail("C04,C01,C02", &format!("thread {t}: next_ref() never handed out the final value {until} (last seen {:?})", seen.last())); }
             }
             (COp::SetSeq(_), Handle::Clone(_)) => { owners += 1; }
+            (COp::HoldWrite, Handle::Clone(_)) => { owners += 1; }
+            (COp::SubPoll, Handle::Clone(_)) => {
+                owners += 1;
+                // C04 / C01: nothing is written in this program: a subscriber created by subscribe() has nothing to receive
+                if let Some(r) = results.first() { if r.split(',').any(|x| x != "Pending") {
+                    sink.oracle_fail("C04,C01", &format!("thread {t}: subscribers created by subscribe() while another thread held the write lock (without writing) answered {r} to their first poll; no update happened after the subscription"));
+                } }
+            }
             (COp::Shne(v), Handle::Clone(_)) => {
                 owners += 1;
                 if let Some(r) = results.first() { if let Some(x) = r.strip_prefix("some(").and_then(|x| x.strip_suffix(")")).and_then(|x| x.parse::<u64>().ok()) {
@@ -449,6 +474,8 @@ pub fn free_programs() -> Vec<(&'static str, Program)> {
         ("sne|sne|sne", Program { init: 1, ops: vec![COp::Sne(7), COp::Sne(7), COp::Sne(7)], extra_clones: 0 }),
         ("sne|set|poll", Program { init: 1, ops: vec![COp::Sne(7), COp::Set(7), pl(false)], extra_clones: 0 }),
         ("pollf|set|set.free", Program { init: 1, ops: vec![pl(true), COp::Set(5), COp::Set(6)], extra_clones: 0 }),
+        ("holdwrite|subpoll", Program { init: 1, ops: vec![COp::HoldWrite, COp::SubPoll], extra_clones: 0 }),
+        ("holdwrite|subpoll|subpoll", Program { init: 1, ops: vec![COp::HoldWrite, COp::SubPoll, COp::SubPoll], extra_clones: 0 }),
         ("shne|shne", Program { init: 1, ops: vec![COp::Shne(7), COp::Shne(7)], extra_clones: 0 }),
         ("shne|shne|sne", Program { init: 1, ops: vec![COp::Shne(7), COp::Shne(7), COp::Sne(7)], extra_clones: 0 }),
         ("nextrefs|setseq", Program { init: 0, ops: vec![COp::NextRefs { until: 300 }, COp::SetSeq(300)], extra_clones: 0 }),
